@@ -554,6 +554,13 @@ def r11_store_order(ctx):
     clause_store_order(ctx)
 
 
+def r12_hash_encoding(ctx):
+    """the visible hash of equal settings is the same however they were
+    written (1, 1.0, True; list or tuple)"""
+    from .c12 import r2_encoder
+    r2_encoder(ctx)
+
+
 RULES = [
     ("C03-R1", "a changed setting drops results on every storing path",
      r1_invalidate_on_change),
@@ -575,4 +582,6 @@ RULES = [
      "data before it is stored", r10_settings_describe_the_data),
     ("C03-R11", "non-commuting settings of one request are stored in "
      "dependency order", r11_store_order),
+    ("C03-R12", "the fit hash does not depend on how equal setting values "
+     "are represented", r12_hash_encoding),
 ]
